@@ -1,5 +1,7 @@
+pub mod c05;
 pub mod c06;
 pub mod c10;
+pub mod c11;
 pub mod c12;
 pub mod c13;
 pub mod c14;
@@ -11,6 +13,14 @@ pub mod statq;
 
 use crate::framework::Property;
 
+#[cfg(feature = "proc")]
+pub fn all() -> Vec<Box<dyn Property>> {
+    // the `proc` build links crustabri with exec_solver routed through the simulated process seam:
+    // it serves only the schedule exploration of C16
+    vec![Box::new(crate::procsim::ProcSim)]
+}
+
+#[cfg(not(feature = "proc"))]
 pub fn all() -> Vec<Box<dyn Property>> {
     vec![
         Box::new(statq::StatQ(statq::Mode::C01)),
@@ -18,10 +28,12 @@ pub fn all() -> Vec<Box<dyn Property>> {
         Box::new(statq::StatQ(statq::Mode::C03)),
         Box::new(statq::StatQ(statq::Mode::C04)),
         Box::new(statq::StatQ(statq::Mode::C07)),
+        Box::new(c05::C05),
         Box::new(c06::C06),
         Box::new(dynamic::Dyn { faults: false }),
         Box::new(dynamic::Dyn { faults: true }),
         Box::new(c10::C10),
+        Box::new(c11::C11),
         Box::new(c12::C12),
         Box::new(c13::C13),
         Box::new(c14::C14),
